@@ -152,6 +152,9 @@ def _load_helper_atoms(lit: LineIterator, num_atoms: int) -> tuple[NDArray[int],
         atcoords[atom, 1] = float(line[36:48])
         atcoords[atom, 2] = float(line[48:60])
         atnum = sym2num.get(symbol)
+        if symbol == "Bq":
+            # ghost center
+            atnum = 0
         # WFN files created with AIMAll have the symbol and index combined in one word.
         if atnum is None:
             atnum = sym2num[symbol[0]]
